@@ -15,9 +15,12 @@
    a ListNode, soydoc params are SoyDocParamNodes, a {let} is a direct child of
    a ListNode); the harness evaluates them on every parsed bundle. *)
 (* source tie by translation: the lemmas of these files are obligations of this property *)
-From Soy Require Import Proofs.SourceTieChecker.
+From Soy Require Import Proofs.SourceTieChecker Proofs.SourceTieChildren.
 From Soy Require Import Model.Bytes Model.Num Model.Values Model.Outcome Model.Ast Model.Interp Model.RefView Model.Checker
   Spec.Wf Proofs.CheckerProofs Proofs.CheckerInterpProofs.
+From Coq Require Import Permutation.
+From Soy Require Import Model.Compile Proofs.CheckerCompileTie Proofs.CheckerAddTie.
+From Soy Require Import Model.CheckerRun Proofs.CheckerExcuseProofs Proofs.CheckerExcuseRel.
 Open Scope N_scope.
 
 (* ------------------------------------------------------------------ *)
@@ -39,6 +42,7 @@ Print Assumptions C07_check_registry_iff.
 (* the loop functions the model special-cases are soyhtml's loopFuncs (table regenerated from funcs.go) *)
 Theorem C07_loop_funcs_tied : loop_func_names = Generated.Tables.html_loop_funcs.
 Proof. exact loop_func_names_table. Qed.
+Print Assumptions C07_loop_funcs_tied.
 
 (* Registry.Add's expression for the Optional flag of a folded header param, regenerated from
    registry.go on every run, is the ? marker alone (a default value does not make a param optional:
@@ -46,22 +50,108 @@ Proof. exact loop_func_names_table. Qed.
 Theorem C07_header_param_optional : forall opt has_default has_type,
   Generated.Tables.header_param_optional opt has_default has_type = opt.
 Proof. exact header_param_optional_spec. Qed.
+Print Assumptions C07_header_param_optional.
+
+(* There are two hand-written models of parsepasses.CheckDataRefs: Model/Checker.v (this property: over the
+   view of RefView.v) and Model/Compile.v (C13: fuel recursion over ast nodes through Children(), with the Go
+   map order of MapLiteralNode.Children as the parameter ko0, sorted since b9a4d3a).  They are the same
+   function: same verdict, same class of error, on every registry whose map literals list their items by
+   strictly increasing key (what the parser builds and the AST dump transmits), for every map iteration order. *)
+Theorem C07_checker_models_agree : forall ko0 reg,
+  (forall ks, Permutation (ko0 ks) ks) ->
+  forallb (fun t => maps_sorted (t_node t)) (r_templates reg) = true ->
+  verdict_of_failure (first_failure (check_template (sorted_after ko0) (find_template (r_templates reg))) (r_templates reg))
+  = check_registry reg.
+Proof. exact check_data_refs_models_agree. Qed.
+Print Assumptions C07_checker_models_agree.
+
+(* The same for the whole of compile_check: Model/Compile.v has a second model of Registry.Add too (registry_add, with
+   the source/file maps and the processed bodies); on parsed files the two build the same template list and fail for
+   the same class of reason, so C07's compile_check is the Add + CheckDataRefs part of C13's compile_gen. *)
+Theorem C07_compile_models_agree : forall ko0 fs,
+  (forall ks, Permutation (ko0 ks) ks) ->
+  files_shaped fs = true ->
+  (forall ts, add_files [] fs = AddOk ts -> registry_maps_sorted (registry_of ts fs) = true) ->
+  compile_check_c13 ko0 fs = compile_check fs.
+Proof. exact compile_check_models_agree. Qed.
+Print Assumptions C07_compile_models_agree.
+
+(* the form the harness evaluates on every compiled registry (both verdicts, and the hypothesis) *)
+Theorem C07_checker_models_agree_run : forall reg,
+  registry_maps_sorted reg = true -> check_registry_c13 reg = check_registry reg.
+Proof. exact check_registry_c13_agrees. Qed.
+Print Assumptions C07_checker_models_agree_run.
+
+(* The tree shape both models walk -- which fields of a node Children() returns, in which order -- is read from
+   ast/node.go on every run: tablegen translates every Children() method into selectors over the receiver's
+   fields (Generated.Tables.ast_children), and the model of Children() (Model/Compile.v [children], to which the
+   view of Model/RefView.v is tied node by node by Proofs/CheckerCompileTie.v kids_tie) is that list for every
+   node of the model; the nodes outside the table have no children.  [go_type] / [field] (which Go type and
+   field a component of the model's node stands for) are the hand-written part, shared with the AST dump. *)
+Theorem C07_children_match_source : forall ko0 n,
+  match go_type n with
+  | Some t => match assoc_s t Generated.Tables.ast_children with
+              | Some l => sels ko0 n l = Some (children (sorted_after ko0) n)
+              | None => False
+              end
+  | None => children (sorted_after ko0) n = []
+  end.
+Proof. exact children_matches_source. Qed.
+Print Assumptions C07_children_match_source.
 
 (* ------------------------------------------------------------------ *)
 (* 2. static scoping is sound for the scope stack *)
 
 (* DESIGN.md states: check b = Ok -> supplies data (params t) -> unbound_lookups (render b t data) = 0.
-   Read with the interpreter's counter (EVERY scope.lookup miss) that statement is false:
-   a caller may omit an optional param of its callee, and data="$e" passes a map the
-   checker cannot see; the callee then looks up a DECLARED param that is absent
-   ([C07_declared_param_may_be_absent] below).  Such a name is bound statically (by
-   the declaration), so this is not the defect the property talks about; but the
-   counter cannot tell the two apart.  The theorem therefore covers the bundles in
-   which every call passes every param its callee declares ([calls_total]: explicitly,
-   or through data="all" for params the caller declares; no data="$e").  For the
-   other bundles the harness checks that every missed key is a declared param.
-   Hence the name _partial. *)
-Theorem C07_accepted_no_unbound_lookup_partial :
+   The interpreter's counter [rr_unbound] counts EVERY scope.lookup miss.  A caller may omit an optional
+   param of its callee, and data="$e" passes a map the checker cannot see; the callee then looks up a
+   DECLARED param that is absent ([C07_declared_param_may_be_absent] below).  Such a name is bound
+   statically (by the declaration): it is not a name that nothing binds.  What a callee may assume is
+   exactly this: the variables of its enclosing {let}s and loops and the counters of its enclosing loops
+   are bound; each of its declared params is either supplied or reads as undefined.
+
+   The full statement is therefore about [render_x] (Model/CheckerRun.v): [render] with the counter that
+   does not count the miss of a declared param of the template being executed (the params of the entry
+   template at the start, those of the callee across every {call}).  For EVERY accepted registry whose
+   trees have the parser's shape -- calls omitting optional params, data="all", data="$e", $ij,
+   recursion; any data, any fuel, any writer fault; on every outcome -- that counter is 0, and
+   [render_x] is [render] in every other observable (so no lookup of [render] misses on anything but a
+   declared param of the template it is executing). *)
+Theorem C07_accepted_no_unbound_lookup :
+  forall cf fuel name data_id data cl bl first_id,
+  check_registry (c_reg cf) = Accept ->
+  registry_shaped (c_reg cf) = true ->
+  let rx := render_x cf fuel name data_id data cl bl first_id in
+  let r := render cf fuel name data_id data cl bl first_id in
+  rr_unbound rx = 0%nat
+  /\ rr_outcome rx = rr_outcome r /\ rr_writes rx = rr_writes r /\ rr_file rx = rr_file r /\ rr_line rx = rr_line r
+  /\ rr_shared_writes rx = rr_shared_writes r.
+Proof. exact accepted_no_unbound_lookup_full. Qed.
+Print Assumptions C07_accepted_no_unbound_lookup.
+
+(* the refined counter is the counter minus the excused misses: for every registry (accepted or not) *)
+Theorem C07_render_x_is_render : forall cf fuel name data_id data cl bl first_id,
+  let rx := render_x cf fuel name data_id data cl bl first_id in
+  let r := render cf fuel name data_id data cl bl first_id in
+  rr_outcome rx = rr_outcome r /\ rr_writes rx = rr_writes r /\ rr_file rx = rr_file r /\ rr_line rx = rr_line r
+  /\ rr_shared_writes rx = rr_shared_writes r /\ (rr_unbound rx <= rr_unbound r)%nat.
+Proof. exact render_x_is_render. Qed.
+Print Assumptions C07_render_x_is_render.
+
+(* the same starting from the files Bundle.Compile accepted *)
+Theorem C07_accepted_bundle_no_unbound_lookup :
+  forall fs cf fuel name data_id data cl bl first_id,
+  compile_check fs = Accept ->
+  (forall ts, add_files [] fs = AddOk ts -> c_reg cf = registry_of ts fs) ->
+  registry_shaped (c_reg cf) = true ->
+  rr_unbound (render_x cf fuel name data_id data cl bl first_id) = 0%nat.
+Proof. exact accepted_bundle_no_unbound_name. Qed.
+Print Assumptions C07_accepted_bundle_no_unbound_lookup.
+
+(* When, moreover, every call passes every param its callee declares ([calls_total]: explicitly, or through
+   data="all" for params the caller declares; no data="$e") and the data supplies every declared param of
+   the entry template, no lookup misses at all -- not even on a declared param: the unrefined counter is 0. *)
+Theorem C07_all_params_supplied_no_miss :
   forall cf fuel name t data_id data cl bl first_id,
   check_registry (c_reg cf) = Accept ->
   registry_shaped (c_reg cf) = true ->
@@ -70,10 +160,9 @@ Theorem C07_accepted_no_unbound_lookup_partial :
   (forall p, In p (map fst (t_params t)) -> assoc_s p data <> None) ->       (* all declared params supplied *)
   rr_unbound (render cf fuel name data_id data cl bl first_id) = 0%nat.       (* on every outcome, for every fuel *)
 Proof. exact accepted_no_unbound_lookup. Qed.
-Print Assumptions C07_accepted_no_unbound_lookup_partial.
+Print Assumptions C07_all_params_supplied_no_miss.
 
-(* the same starting from the files Bundle.Compile accepted *)
-Theorem C07_accepted_bundle_no_unbound_lookup_partial :
+Theorem C07_bundle_all_params_supplied_no_miss :
   forall fs cf fuel name t data_id data cl bl first_id,
   compile_check fs = Accept ->
   (forall ts, add_files [] fs = AddOk ts -> c_reg cf = registry_of ts fs) ->
@@ -83,7 +172,7 @@ Theorem C07_accepted_bundle_no_unbound_lookup_partial :
   (forall p, In p (map fst (t_params t)) -> assoc_s p data <> None) ->
   rr_unbound (render cf fuel name data_id data cl bl first_id) = 0%nat.
 Proof. exact accepted_bundle_no_unbound_lookup. Qed.
-Print Assumptions C07_accepted_bundle_no_unbound_lookup_partial.
+Print Assumptions C07_bundle_all_params_supplied_no_miss.
 
 (* ------------------------------------------------------------------ *)
 (* 3. non-vacuity *)
@@ -140,10 +229,35 @@ Example C07_nonvacuous_reject :
                                  /\ bad [NLetValue 0 (b "p") (NInt 0 1); pr (ref "p")] = (Reject RUnusedParam, false).
 Proof. vm_compute. repeat split; reflexivity. Qed.
 
+(* the hypotheses of C07_checker_models_agree hold of a bundle with a map literal (keys listed in order), for a
+   map iteration order that is not the identity; both models accept it, and both reject the same violation *)
+Example C07_models_agree_nonvacuous :
+  let lit := NMapLit 0 [(b "a", ref "p"); (b "b", NInt 0 1)] in
+  let reg body := c_reg (ex_cfg body) in
+  let c13 body := first_failure (check_template (sorted_after (@rev bstr)) (find_template (r_templates (reg body)))) (r_templates (reg body)) in
+  registry_maps_sorted (reg [pr lit]) = true /\ check_registry_c13 (reg [pr lit]) = Accept
+  /\ forallb (fun t => maps_sorted (t_node t)) (r_templates (reg [pr lit])) = true
+  /\ c13 [pr lit] = None /\ check_registry (reg [pr lit]) = Accept
+  /\ verdict_of_failure (c13 [pr lit; pr (ref "zz")]) = Reject RUnbound /\ check_registry (reg [pr lit; pr (ref "zz")]) = Reject RUnbound
+  /\ maps_sorted (NMapLit 0 [(b "b", NInt 0 1); (b "a", NInt 0 2)]) = false.
+Proof. vm_compute. repeat split; reflexivity. Qed.
+
 (* K3 of the defect ledger, repaired by cb3f9df: a param referenced before a same-named let is used *)
 Example C07_param_then_same_named_let :
   compile_check [ex_file (pr (ref "p") :: NLetValue 0 (b "p") (NInt 0 1) :: [pr (ref "p")])] = Accept.
 Proof. vm_compute. reflexivity. Qed.
+
+(* the refined counter is live: on a bundle the checker rejects (a reference to a name that nothing binds) it counts
+   the miss; and it excuses only the params of the template being executed (q is declared by ns.u, not by ns.t) *)
+Example C07_refined_counter_counts :
+  let cfx body := ex_cfg body in
+  check_registry (c_reg (cfx [pr (ref "zz"); pr (ref "p")])) = Reject RUnbound
+  /\ rr_unbound (render_x (cfx [pr (ref "zz"); pr (ref "p")]) 100 (b "ns.t") 7 [(b "p", VInt 5)] None None 100) = 1%nat
+  /\ check_registry (c_reg (cfx [pr (ref "q"); pr (ref "p")])) = Reject RUnbound
+  /\ rr_unbound (render_x (cfx [pr (ref "q"); pr (ref "p")]) 100 (b "ns.t") 7 [(b "p", VInt 5)] None None 100) = 1%nat
+  /\ rr_unbound (render_x (cfx [pr (ref "p")]) 100 (b "ns.t") 7 [] None None 100) = 0%nat
+  /\ rr_unbound (render (cfx [pr (ref "p")]) 100 (b "ns.t") 7 [] None None 100) = 1%nat.
+Proof. vm_compute. repeat split; reflexivity. Qed.
 
 (* why [calls_total] is needed: an accepted bundle whose caller omits an optional param of the callee;
    the callee looks up its declared param q and misses (the counter counts it) *)
@@ -158,5 +272,28 @@ Example C07_declared_param_may_be_absent :
   let reg := match add_files [] [ex_opt_file] with AddOk ts => registry_of ts [ex_opt_file] | AddRej _ => empty_registry end in
   let cf := {| c_reg := reg; c_ij := None; c_oblig := []; c_msgs := None |} in
   compile_check [ex_opt_file] = Accept /\ registry_shaped reg = true /\ calls_total reg = false
-  /\ rr_unbound (render cf 100 (b "ns.t") 7 [(b "p", VInt 5)] None None 100) = 1%nat.
+  /\ rr_unbound (render cf 100 (b "ns.t") 7 [(b "p", VInt 5)] None None 100) = 1%nat
+  /\ rr_unbound (render_x cf 100 (b "ns.t") 7 [(b "p", VInt 5)] None None 100) = 0%nat.
+Proof. vm_compute. repeat split; reflexivity. Qed.
+
+(* the same through data="$m": the map behind $m lacks the callee's REQUIRED param q (the checker cannot know), the callee
+   is entered with data="all" from there and recurses once; two misses on declared params, none on anything else *)
+Definition ex_dataexpr_file : soyfile :=
+  {| sf_name := b "h.soy"; sf_text := [];
+     sf_body := [ NNamespace 0 (b "ns") 0;
+                  NSoyDoc 0 [NSoyDocParam 0 (b "m") false];
+                  NTemplate 0 (b "ns.t") (NList 0 [NCall 0 (b "ns.u") false (Some (ref "m")) []]) 0 false;
+                  NSoyDoc 0 [NSoyDocParam 0 (b "q") false; NSoyDocParam 0 (b "again") true];
+                  NTemplate 0 (b "ns.u")
+                    (NList 0 [NIf 0 [NIfCond 0 (Some (ref "q")) (NList 0 [])];
+                              NIf 0 [NIfCond 0 (Some (ref "again")) (NList 0 [NCall 0 (b "ns.u") true None [NParamValue 0 (b "again") (NBool 0 false)]])]])
+                    0 false ] |}.
+Example C07_data_expr_and_recursion :
+  let reg := match add_files [] [ex_dataexpr_file] with AddOk ts => registry_of ts [ex_dataexpr_file] | AddRej _ => empty_registry end in
+  let cf := {| c_reg := reg; c_ij := None; c_oblig := []; c_msgs := None |} in
+  let d := [(b "m", VMap 9 [(b "again", VBool true)])] in
+  compile_check [ex_dataexpr_file] = Accept /\ registry_shaped reg = true /\ calls_total reg = false
+  /\ rr_outcome (render cf 100 (b "ns.t") 7 d None None 100) = Ok tt
+  /\ rr_unbound (render cf 100 (b "ns.t") 7 d None None 100) = 2%nat
+  /\ rr_unbound (render_x cf 100 (b "ns.t") 7 d None None 100) = 0%nat.
 Proof. vm_compute. repeat split; reflexivity. Qed.
